@@ -107,6 +107,10 @@ def additions(S, is_cont):
                 if ab == "core::iter::Iterator::map" and len(a[2]) == 2 and a[2][1][0] == "closure" and val is None and not filters:
                     val = S.fv.closure_ret(a[2][1][1])
                     a = a[2][0]
+                elif ab == "core::iter::Iterator::map" and len(a[2]) == 2 and a[2][1][0] == "fn" and val is None and not filters:
+                    # a function item as the mapper (`.map(str::to_string)`): the element is f(item)
+                    val = ("call", a[2][1][1], (("item", a[2][0]),), s.get("site", (b.path, s["bb"])))
+                    a = a[2][0]
                 elif ab == "core::iter::Iterator::filter" and len(a[2]) == 2 and a[2][1][0] == "closure":
                     cr = S.fv.closure_ret(a[2][1][1])
                     filters.append(_unfilter(pnorm(cr)) if cr is not None else ("unknown", "filter"))
